@@ -81,6 +81,10 @@ type replay struct {
 	RunHash  string         `json:"run_hash,omitempty"`
 	Shrunk   map[string]any `json:"minimisation,omitempty"`
 	Go       string         `json:"go_version"`
+	// Harness identifies the sources of the harness that wrote the file: a
+	// script is a sequence of answers to the generators\' draws and means
+	// something else once the generators change.
+	Harness string `json:"harness,omitempty"`
 	// RunList: the violation depends on what the PROCESS executed before
 	// (state the library keeps outside its engines): the replay is this
 	// list of run indices executed in order in one fresh process.
